@@ -24,6 +24,9 @@ def run(ctx, replay=None):
     ctx.go_test("cctfe", run="TestReplay$", env={"VERIF_BEHAVIOURS": path, "VERIF_PROP": "C06"}, timeout=3000)
     if replay:
         return
+    # the repository's own client library and ctutil.LogInfo as the client side of the same behaviours
+    ctx.go_test("cctfe", run="TestClientLoop$", env={"VERIF_BEHAVIOURS": path, "VERIF_LOOP_BEHAVIOURS": ctx.pick(300, 5000)},
+                timeout=3000, name="clientloop")
     # concurrent clients under -race: backend call order = linearization order, validated by CTFETrace.tla
     out, outdir, _ = ctx.go_test("cctfe", run="TestConcurrent$", race=True, timeout=3000, name="concurrent",
                                  env={"VERIF_TRACES": ctx.pick(8, 80), "VERIF_ROUNDS": ctx.pick(6, 10)})
